@@ -538,7 +538,7 @@ def cases(ctx):
         for t in list(toks) + extra:
             out.append(build("dx_classify", {"kind": kind, "name": name, "tok": t}))
     seen = set()
-    per = 9 if tier == "quick" else 80
+    per = 7 if tier == "quick" else 80
     for (kind, name), parser in sorted(parsers.items()):
         rng = common.sub_rng(seed, "C17x", kind, name)
         pos, opts = D.shape(parser)
